@@ -404,6 +404,50 @@ static std::string step(const Toks& t)
 		}
 		return verdict;
 	}
+	if (op == "watch" && t.size() == 5 && role(t[1], ic))
+	{
+		// one thread in receive(), another one polling closed() (a sender looping on connected()): the stream of
+		// one-byte binary messages must arrive completely
+		std::string st = unhex(t[2]);
+		int n = (int)num(t[3]), seed = (int)num(t[4]);
+		if (st.size() != 32 || n < 1 || n > 1000000) return "bad-op";
+		std::string verdict;
+		for (int attempt = 0; attempt < 3; attempt++) // a race: three rounds, the first bad one is reported
+		{
+			int fd[2];
+			if (socketpair(AF_UNIX, SOCK_STREAM, 0, fd) != 0) return "err socketpair";
+			std::string got;
+			bool closed = false;
+			{
+				WS ws(Socket(new Socket_(fd[0])), ic);
+				ws.setRng(st);
+				std::atomic<bool> done(false);
+				std::thread peer([&]() {
+					for (int i = 0; i < n; i++) {
+						unsigned char f[3] = { 0x82, 1, (unsigned char)((seed + i) % 251) };
+						if (::send(fd[1], f, 3, MSG_NOSIGNAL) != 3) break;
+						if (i % 64 == 0) usleep(50);
+					}
+					usleep(20000);
+					shutdown(fd[1], SHUT_WR);
+				});
+				std::thread watcher([&]() { while (!done) { if (ws.closed()) break; } });
+				for (int k = 0; k <= n; k++) {
+					WebSocketMsg m = ws.receive();
+					if (m.length() != 1) break;
+					got += (*m)[0];
+				}
+				done = true;
+				closed = ws.closed();
+				peer.join();
+				watcher.join();
+			}
+			::close(fd[1]);
+			verdict = "n=" + str((long long)got.size()) + ":" + showBytes(got) + " closed=" + (closed ? "1" : "0");
+			if ((int)got.size() != n) break;
+		}
+		return verdict;
+	}
 	if (op == "bigsum" && t.size() == 3)
 	{
 		// fragments of one binary message, each `len` bytes of 'a', generated here (too long for the line protocol):
